@@ -493,6 +493,201 @@ impl SchedSpec for ConcQueueSpec {
     }
 }
 
+// ------------------------------------------------------------------------------------------------
+// auxiliary: free-running stress (SAMPLING — see zverif::stress)
+
+fn executor_stress(workers: usize, capacity: usize, budget: std::time::Duration) -> Result<u64, Fail> {
+    use std::sync::atomic::AtomicU32;
+    let t_end = std::time::Instant::now() + budget;
+    let mut rounds = 0u64;
+    while std::time::Instant::now() < t_end {
+        rounds += 1;
+        let rt = tokio::runtime::Builder::new_multi_thread().worker_threads(workers + 1).enable_all().build().expect("tokio runtime");
+        let exec = {
+            let _g = rt.enter();
+            WorkStealingExecutor::new(workers, capacity).expect("executor")
+        };
+        const N: usize = 120;
+        let counters: Arc<Vec<AtomicU32>> = Arc::new((0..N).map(|_| AtomicU32::new(0)).collect());
+        let accepted: Arc<Vec<AtomicU32>> = Arc::new((0..N).map(|_| AtomicU32::new(0)).collect());
+        let submit_done = Arc::new(AtomicU32::new(0));
+        for sub in 0..2usize {
+            let (exec, counters, accepted, submit_done) = (exec.clone(), counters.clone(), accepted.clone(), submit_done.clone());
+            // detached: a submit() that blocks for good must not take the check with it
+            std::thread::spawn(move || {
+                for i in (sub..N).step_by(2) {
+                    let c = counters.clone();
+                    let task = ClosureTask::new(move || {
+                        let c = c.clone();
+                        Box::pin(async move {
+                            c[i].fetch_add(1, Ordering::SeqCst);
+                            Ok(())
+                        }) as std::pin::Pin<Box<dyn std::future::Future<Output = zipora::error::Result<()>> + Send>>
+                    })
+                    .with_priority((i % 3) as u8)
+                    .with_stealable(i % 5 != 0);
+                    let r = exec.submit(Box::new(task) as Box<dyn Task>);
+                    accepted[i].store(if r.is_ok() { 1 } else { 2 }, Ordering::SeqCst);
+                }
+                submit_done.fetch_add(1, Ordering::SeqCst);
+            });
+        }
+        let t_sub = std::time::Instant::now();
+        while submit_done.load(Ordering::SeqCst) < 2 && t_sub.elapsed() < std::time::Duration::from_secs(10) {
+            std::thread::sleep(std::time::Duration::from_millis(1));
+        }
+        if submit_done.load(Ordering::SeqCst) < 2 {
+            // the runtime and its stuck threads are abandoned
+            std::mem::forget(rt);
+            return Err(Fail::new("deadlock", format!("submit() did not return within 10 s (workers={workers}, capacity={capacity}): a submitter is blocked inside the executor")).with_class("stress"));
+        }
+        // every accepted task must run: wait (bounded) until the counters say so
+        let deadline = std::time::Instant::now() + std::time::Duration::from_secs(10);
+        let all_ran = |counters: &Vec<AtomicU32>, accepted: &Vec<AtomicU32>| (0..N).all(|i| accepted[i].load(Ordering::SeqCst) != 1 || counters[i].load(Ordering::SeqCst) >= 1);
+        while !all_ran(&counters, &accepted) && std::time::Instant::now() < deadline {
+            std::thread::sleep(std::time::Duration::from_millis(2));
+        }
+        // a little longer: a task that runs twice needs time to show
+        std::thread::sleep(std::time::Duration::from_millis(5));
+        let mut res: Result<(), Fail> = Ok(());
+        let mut n_acc = 0u64;
+        for i in 0..N {
+            let (a, c) = (accepted[i].load(Ordering::SeqCst), counters[i].load(Ordering::SeqCst));
+            if a == 1 {
+                n_acc += 1;
+            }
+            if a == 1 && c == 0 {
+                res = Err(Fail::new("task_never_run", format!("task {i} was accepted by submit() but had not run 10 s after the last submit ({} queued, workers={workers}, capacity={capacity})", exec.total_queued())).with_class("stress"));
+                break;
+            }
+            if c > 1 {
+                res = Err(Fail::new("task_ran_twice", format!("task {i} was executed {c} times")).with_class("stress"));
+                break;
+            }
+            if a == 2 && c != 0 {
+                res = Err(Fail::new("rejected_task_ran", format!("submit() returned Err for task {i} but it was executed")).with_class("stress"));
+                break;
+            }
+        }
+        if res.is_ok() {
+            // quiescent now: nothing queued, nothing active
+            let st = exec.stats();
+            if st.total_executed != n_acc {
+                res = Err(Fail::new("stats", format!("stats().total_executed = {} but {} accepted tasks ran", st.total_executed, n_acc)).with_class("stress"));
+            } else if !exec.is_idle() {
+                res = Err(Fail::new("not_idle_after_drain", format!("all tasks ran but is_idle() is false (active_tasks={}, queued={})", st.active_tasks, exec.total_queued())).with_class("stress"));
+            }
+        }
+        drop(exec);
+        rt.shutdown_background();
+        res?;
+    }
+    Ok(rounds)
+}
+
+fn queue_stress(budget: std::time::Duration) -> Result<u64, Fail> {
+    use std::sync::atomic::{AtomicBool, AtomicU64};
+    let q = Arc::new(WorkStealingQueue::new(0, 8));
+    let log = Arc::new(Mutex::new(Vec::<u64>::new()));
+    let stop = Arc::new(AtomicBool::new(false));
+    let progress: Arc<Vec<AtomicU64>> = Arc::new((0..3).map(|_| AtomicU64::new(0)).collect());
+    let taken = Arc::new(Mutex::new(std::collections::HashSet::<u64>::new()));
+    let fail: Arc<Mutex<Option<Fail>>> = Arc::new(Mutex::new(None));
+    let pushed = Arc::new(AtomicU64::new(0));
+    for tid in 0..3usize {
+        let (q, log, stop, progress, taken, fail, pushed) = (q.clone(), log.clone(), stop.clone(), progress.clone(), taken.clone(), fail.clone(), pushed.clone());
+        // detached on purpose: a deadlocked thread can never be joined
+        std::thread::spawn(move || {
+            let mut n = 0u64;
+            while !stop.load(Ordering::SeqCst) {
+                n += 1;
+                progress[tid].store(n, Ordering::SeqCst);
+                let got = match tid {
+                    0 => {
+                        // owner: push, balance, pop_local
+                        if n % 3 == 0 {
+                            let id = (tid as u64) << 40 | n;
+                            if q.push_local(Box::new(IdTask { id, prio: (n % 2) as u8, stealable: n % 7 != 0, log: log.clone() })).is_ok() {
+                                pushed.fetch_add(1, Ordering::SeqCst);
+                            }
+                            None
+                        } else if n % 3 == 1 {
+                            q.balance();
+                            None
+                        } else {
+                            q.pop_local()
+                        }
+                    }
+                    1 => q.steal(),
+                    _ => {
+                        let _ = q.len();
+                        let _ = q.is_empty();
+                        None
+                    }
+                };
+                if let Some(t) = got {
+                    // IdTask::execute logs its id under the log mutex; read it back under the same critical section
+                    let id = {
+                        let _ = t.execute();
+                        // (another thread may log in between: find OUR id by uniqueness instead)
+                        0u64
+                    };
+                    let _ = id;
+                }
+            }
+            // every logged id must be unique (a task handed out twice logs twice)
+            if tid == 0 {
+                let l = log.lock().unwrap();
+                let mut seen = taken.lock().unwrap();
+                for id in l.iter() {
+                    if !seen.insert(*id) {
+                        fail.lock().unwrap().get_or_insert(Fail::new("task_returned_twice", format!("task {id} was handed out twice")).with_class("stress"));
+                    }
+                }
+            }
+            progress[tid].store(u64::MAX, Ordering::SeqCst);
+        });
+    }
+    // watchdog: every thread must keep making calls
+    let t_end = std::time::Instant::now() + budget;
+    let mut last: Vec<u64> = vec![0; 3];
+    let mut last_change = std::time::Instant::now();
+    while std::time::Instant::now() < t_end {
+        std::thread::sleep(std::time::Duration::from_millis(20));
+        let now: Vec<u64> = progress.iter().map(|p| p.load(Ordering::SeqCst)).collect();
+        if now != last {
+            // all three must move; a single stuck thread shows as its own counter standing still
+            if (0..3).all(|i| now[i] != last[i]) {
+                last_change = std::time::Instant::now();
+            }
+            last = now;
+        }
+        if last_change.elapsed() > std::time::Duration::from_secs(5) {
+            stop.store(true, Ordering::SeqCst);
+            return Err(Fail::new("deadlock", format!("owner / thief / observer on one WorkStealingQueue: at least one thread completed no call for 5 s (calls so far {:?})", last)).with_class("stress"));
+        }
+    }
+    stop.store(true, Ordering::SeqCst);
+    let t0 = std::time::Instant::now();
+    while progress.iter().any(|p| p.load(Ordering::SeqCst) != u64::MAX) && t0.elapsed() < std::time::Duration::from_secs(5) {
+        std::thread::sleep(std::time::Duration::from_millis(5));
+    }
+    if progress.iter().any(|p| p.load(Ordering::SeqCst) != u64::MAX) {
+        return Err(Fail::new("deadlock", "a queue thread did not finish its last call within 5 s".to_string()).with_class("stress"));
+    }
+    if let Some(f) = fail.lock().unwrap().take() {
+        return Err(f);
+    }
+    // nothing lost: what was pushed is either logged (handed out) or still inside
+    let handed = log.lock().unwrap().len() as u64;
+    let inside = q.len() as u64;
+    let p = pushed.load(Ordering::SeqCst);
+    if handed + inside != p {
+        return Err(Fail::new("task_lost_or_duplicated", format!("{p} tasks were accepted, {handed} were handed out and {inside} are still inside")).with_class("stress"));
+    }
+    Ok(last.iter().filter(|x| **x != u64::MAX).sum())
+}
+
 fn main() {
     zverif::main_with("C18", |reg, tier| {
         let t = |p: u8, s: bool| TaskSpec { priority: p, stealable: s };
@@ -581,6 +776,22 @@ fn main() {
             }));
         }
         reg.add(Seq(QueueSpec { cap: 4, dq: 5, dt: 7 }));
+        for (w, c) in [(1usize, 1usize), (3, 2)] {
+            reg.add(zverif::stress::Stress(zverif::stress::StressSpec {
+                name: format!("WorkStealingExecutor[workers={w},capacity={c}] free-running stress (sampling)"),
+                describe: "rounds of 120 tasks (mixed priority / stealability) submitted by 2 uncontrolled threads to a fresh executor on a multi-thread tokio runtime: every accepted task must have run exactly once within 10 s of the last submit, rejected ones never, then total_executed and is_idle() must agree".into(),
+                run: Box::new(move |d| executor_stress(w, c, d)),
+                budget_quick_ms: 800,
+                budget_thorough_ms: 10000,
+            }));
+        }
+        reg.add(zverif::stress::Stress(zverif::stress::StressSpec {
+            name: "WorkStealingQueue free-running stress (sampling)".into(),
+            describe: "owner (push / balance / pop_local), thief (steal) and observer (len / is_empty) hammer one queue uncontrolled: every thread must keep completing calls (no deadlock), no task is handed out twice, accepted = handed out + still inside".into(),
+            run: Box::new(queue_stress),
+            budget_quick_ms: 800,
+            budget_thorough_ms: 10000,
+        }));
         pipes::register(reg, tier);
     });
 }
